@@ -167,6 +167,14 @@ def _oblige_inv(ex, key, what, st, lc, inv):
         st = st.copy(); st.assume(*hyp)
     for label, f in entries:
         if label.startswith('assume:'): continue
+        if label.startswith('own:'):
+            # a clause about a few ghost/local variables only: proved from the hypotheses that speak about nothing else
+            # (a subset of the hypotheses: sound; keeps the query small, so that its proof does not depend on solver luck)
+            from .solve import _symbols
+            gs = _symbols(f)
+            slim = st.copy(); slim.pc = [h for h in st.pc if _symbols(h) <= gs]
+            ex.oblige(f'loop[{key}]/{what}:{label[4:]}', slim, f, kind='loop')
+            continue
         if label.startswith('qf:'):
             # quantifier-free instance of an invariant clause: decided from the quantifier-free path facts alone (see Exec.emit)
             from .engine import _has_quant_cached
